@@ -31,6 +31,11 @@ EDITS = [
     {"id": "cli-rise-ignores-r", "expect": "fire", "rule": "C09.O6", "file": UI,
      "old": "            rise_mod.find_rise_offsets(\n                connection=connection, reference_zeta_mm=args.reference_zeta_mm\n            )",
      "new": "            rise_mod.find_rise_offsets(connection=connection)"},
+    {"id": "reference-selected-by-truthiness", "expect": "fire", "rule": "C09.O1", "file": RE,
+     "old": "    if reference_zeta_mm is not None:\n        reference_index", "new": "    if reference_zeta_mm:\n        reference_index"},
+    {"id": "guard-folded-into-explicit-branch", "expect": "silent", "file": RI,
+     "old": "    reference_zeta_off_grid = (\n        reference_zeta_mm is not None\n        and not np.isclose(\n            round(reference_zeta_mm / delta_z_mm) * delta_z_mm,\n            reference_zeta_mm,\n        )\n    )\n    if reference_zeta_off_grid:\n        raise ValueError(\n            'Reference zeta {} mm not evenly divisible by '\n            'zeta step {} mm'.format(reference_zeta_mm, delta_z_mm)\n        )\n    if reference_zeta_mm is not None:\n        reference_index = int(round(reference_zeta_mm / delta_z_mm))\n",
+     "new": "    if reference_zeta_mm is not None:\n        reference_index = int(round(reference_zeta_mm / delta_z_mm))\n        if not np.isclose(round(reference_zeta_mm / delta_z_mm) * delta_z_mm, reference_zeta_mm):\n            raise ValueError('Reference zeta off grid')\n"},
     # preserving
     {"id": "np-rint", "expect": "silent", "file": RI,
      "old": "        reference_index = int(round(reference_zeta_mm / delta_z_mm))", "new": "        reference_index = int(np.rint(reference_zeta_mm / delta_z_mm))"},
